@@ -101,7 +101,7 @@ def run_tlc(workdir, module, cfg_text, tag='run', mc_text=None, workers=1, extra
         with open(os.path.join(workdir.path, module + '.tla'), 'w') as f:
             f.write(mc_text)
     meta = os.path.join(workdir.path, 'meta_%s' % tag)
-    cmd = ['java', '-Xmx%s' % heap, '-XX:+UseParallelGC', '-cp', TLC_JAR, 'tlc2.TLC',
+    cmd = ['java', '-Xmx%s' % heap, '-Xss64m', '-XX:+UseParallelGC', '-cp', TLC_JAR, 'tlc2.TLC',
            '-workers', str(workers), '-metadir', meta, '-noGenerateSpecTE',
            '-config', cfg_path] + list(extra_args) + [module + '.tla']
     e = dict(os.environ)
@@ -121,7 +121,9 @@ def run_tlc(workdir, module, cfg_text, tag='run', mc_text=None, workers=1, extra
     res['ok'] = ('Model checking completed. No error has been found.' in out) or \
                 ('Finished in' in out and 'Error:' not in out and p.returncode == 0)
     if not res['ok'] and not allow_violation:
-        tail = '\n'.join(l for l in out.splitlines() if '@@' not in l)[-4000:]
+        lines = [l for l in out.splitlines() if '@@' not in l]
+        idx = [i for i, l in enumerate(lines) if l.startswith('Error:')]
+        tail = '\n'.join(lines[idx[0]:idx[0] + 25])[:3000] if idx else '\n'.join(lines)[-3000:]
         raise TLCError('TLC failed on %s (%s):\n%s' % (module, tag, tail))
     return res
 
